@@ -16,7 +16,26 @@ PROFILE = {"reactive_p": 0.3, "calendar_crop_p": 0.5, "custom_soil_p": 0.4, "res
            "crop_override_p": 0.4}
 
 
+STRONG_HI_RESPONSE_CROPS = ["Cotton", "Cotton", "CottonGDD", "Sorghum", "SorghumGDD", "Tef"]
+
+
 def gen_case(rng, tier, idx):
+    if idx % 8 == 3:
+        # crops whose harvest index responds strongly to moderate water stress after flowering (small a_HI) under deficit
+        # irrigation or rain-fed in a dry climate with re-watering: the stress multiplier presses against its cap 1 + dHI0/100
+        prof = dict(PROFILE, crops=STRONG_HI_RESPONSE_CROPS, gw=0.0, custom_soil_p=0.1, restrictive_p=0.0, irr_methods=[1, 1, 1, 1, 0],
+                    archetypes=["semiarid", "warm", "temperate"], station_p=0.2, sensible_planting_p=0.95, crop_override_p=0.1,
+                    event_kinds=["drought", "dry_then_wet", "dry_then_wet"], events_per_year=2.0, iwc_kinds=["Pct", "Prop"], sat_start_p=0.0)
+        case = std_case(rng, prof)
+        irr = case["spec"]["irr"]
+        if irr["method"] == 1:
+            # small, frequent applications that hold the depletion just below the stomatal threshold (leaf expansion is
+            # hampered, transpiration is not): the combination the upward adjustment rewards most
+            lo = rng.choice([35, 40, 45, 50])
+            irr["kwargs"]["SMT"] = [rng.choice([60, 80, lo]), lo, lo, lo]
+            irr["kwargs"]["MaxIrr"] = rng.choice([6, 10, 15, 25])
+            irr["kwargs"].pop("MaxIrrSeason", None)
+        return case
     case = std_case(rng, PROFILE)
     if idx % 4 == 1:
         # profiles with three or four horizons, a plough layer no thicker than the minimum rooting depth, mixed
